@@ -158,6 +158,32 @@ static int replay(const char* casefile, const char* implfile) {
   fclose(fi); return 0;
 }
 
+// ---- concurrent phase: lookup and evaluation are const member functions whose result is a function of table and point (the
+// models are pure functions), so calls made by several threads at the same time on the SAME const tables must return what
+// the same calls return alone.
+struct Kept { Table t; std::vector<std::vector<double>> xs; std::vector<std::vector<int>> cs; };
+static std::vector<std::unique_ptr<Kept>> g_kept;
+static void all_results(const Kept& k, std::vector<uint64_t>& out) {
+  const Table& t = k.t; uint32_t nd = t.ndim;
+  struct splinetable ct; ct.data = const_cast<Table*>(&t);
+  auto evf = t.get_evaluator<float>(); auto evd = t.get_evaluator<double>();
+  for (size_t p = 0; p < k.xs.size(); p++) {
+    const double* x = k.xs[p].data(); const int* c = k.cs[p].data();
+    std::vector<int> c2(nd, -1); out.push_back(t.searchcenters(x, c2.data())); for (int v : c2) out.push_back((uint64_t)(int64_t)v);
+    int mask = (int)((p * 2654435761u) % (1u << nd));
+    out.push_back(cbits(t.ndsplineeval<float>(x, c, 0))); out.push_back(cbits(t.ndsplineeval<double>(x, c, mask)));
+    out.push_back(cbits(evf.ndsplineeval(x, c, mask))); out.push_back(cbits(evd.ndsplineeval(x, c, 0)));
+    out.push_back(cbits(t(x))); out.push_back(cbits(ndsplineeval(&ct, x, c, mask)));
+    std::vector<unsigned> ks(nd); for (uint32_t d = 0; d < nd; d++) ks[d] = (unsigned)((p + d) % (t.order[d] + 2));
+    out.push_back(cbits(t.ndsplineeval_deriv(x, c, ks.data()))); out.push_back(cbits(evd.ndsplineeval_deriv(x, c, ks.data())));
+    if (nd + 1 <= 8) {
+      std::vector<double> g1(nd + 1, -7), g2(nd + 1, -7);
+      try { t.ndsplineeval_gradient<float>(x, c, g1.data()); evd.ndsplineeval_gradient(x, c, g2.data()); } catch (std::exception&) { out.push_back(77); }
+      for (double v : g1) out.push_back(cbits(v)); for (double v : g2) out.push_back(cbits(v));
+    }
+  }
+}
+
 int main(int argc, char** argv) {
   if (argc >= 4 && std::string(argv[1]) == "REPLAY") return replay(argv[2], argv[3]);
   if (argc < 7) { fprintf(stderr, "usage\n"); return 2; }
@@ -194,6 +220,9 @@ int main(int argc, char** argv) {
     emit_table(t);
     uint32_t nd = t.ndim;
     struct splinetable ct; ct.data = &t;
+    // a copy of some tables, with the accepted points, for the concurrent phase at the end
+    const bool keep = g_kept.size() < 6 && (it % 3 == 0 || ntables <= 6);
+    if (keep) { g_kept.emplace_back(new Kept()); build_table(g_kept.back()->t, g.ord, g.kn, g.coef, &pads); for (uint32_t d = 0; d < nd; d++) { g_kept.back()->t.extents[d][0] = t.extents[d][0]; g_kept.back()->t.extents[d][1] = t.extents[d][1]; } }
     for (long p = 0; p < npoints; p++) {
       std::vector<double> x(nd); std::vector<int> c(nd, -12345);
       std::string kinds;
@@ -212,6 +241,7 @@ int main(int argc, char** argv) {
         if (ok) { double w = t.ndsplineeval(x.data(), c.data(), 0); if (cbits(v) != cbits(w)) { path_mismatch++; fprintf(fc, "X callop-differs-from-eval\n"); fprintf(fi, "mismatch %llu %llu\n", (unsigned long long)cbits(v), (unsigned long long)cbits(w)); } }
       }
       if (!ok) continue;
+      if (keep && g_kept.back()->xs.size() < 40) { g_kept.back()->xs.push_back(x); g_kept.back()->cs.push_back(c); }
       bool dbl = r.coin();
       const char* prec = dbl ? "d" : "f";
       auto emit_xc = [&]() { for (uint32_t d = 0; d < nd; d++) fprintf(fc, " %llu", (unsigned long long)bits(x[d])); for (uint32_t d = 0; d < nd; d++) fprintf(fc, " %d", c[d]); fprintf(fc, "\n"); };
@@ -321,6 +351,19 @@ int main(int argc, char** argv) {
     }
   }
   fclose(fc); fclose(fi);
+  alarm(0);
+  if (!g_kept.empty()) {
+    std::vector<std::vector<uint64_t>> alone(g_kept.size());
+    for (size_t k = 0; k < g_kept.size(); k++) all_results(*g_kept[k], alone[k]);
+    const int NT = 4, ROUNDS = 25;
+    std::vector<int> bad(NT, 0); long calls = 0;
+    for (auto& k : g_kept) calls += (long)k->xs.size();
+    int rc = run_concurrently(NT, 120,
+      [&](int th) { for (int round = 0; round < ROUNDS; round++) for (size_t j = 0; j < g_kept.size(); j++) { size_t q = (j + th + round) % g_kept.size(); std::vector<uint64_t> now; all_results(*g_kept[q], now); if (now != alone[q]) bad[th]++; } },
+      [&]() { int n = 0; for (int b : bad) n += b; return n > 100 ? 100 : n; });
+    stats["concurrent_threads"] = NT; stats["concurrent_tables"] = (long)g_kept.size(); stats["concurrent_points_evaluated"] = calls * NT * ROUNDS;
+    stats["concurrent_outcome"] = rc;   // 0 = every result equal to the one obtained alone; > 0 = number of (table, round) sets that differ; < 0 = -signal
+  }
   FILE* fs = fopen(argv[6], "w");
   fprintf(fs, "{\"path_mismatch\": %ld", path_mismatch);
   for (auto& kv : stats) fprintf(fs, ", \"%s\": %ld", kv.first.c_str(), kv.second);
